@@ -337,6 +337,39 @@ def scen_race(ctx, exp, name, plan):
     return procs
 
 
+def scen_aged_race(ctx, exp):
+    """The protocol may not depend on how long a build takes: while process A is in its compiler phase every file
+    and directory in the cache is back-dated by an hour (as if the build had been running that long), then B
+    requests the same form.  Both must succeed."""
+    cache = Path(ctx.scratch) / 'race_aged'
+    cache.mkdir()
+    trace = cache / 'trace.ndjson'
+    a = Child(cache, ['mass5'], trace=trace, tag='a')
+    t0 = time.time()
+    seen = False
+    while time.time() - t0 < 300 and a.p.poll() is None:
+        if trace.exists() and '"Cythonized"' in trace.read_text():
+            seen = True
+            break
+        time.sleep(0.1)
+    if not seen:
+        a.wait()
+        ctx.skip('aged race: compiler phase not observed (hooks missing?)')
+        return
+    old = time.time() - 3600
+    for root, dirs, files in os.walk(cache / 'pyiga'):
+        for nm in dirs + files:
+            try:
+                os.utime(os.path.join(root, nm), (old, old))
+            except OSError:
+                pass
+    b = Child(cache, ['mass5'], trace=trace, tag='b')
+    ra, rb = a.wait(), b.wait()
+    judge(ctx, exp, a, ra, 'race=aged proc=A (artefacts back-dated by 1 h while compiling)', {})
+    judge(ctx, exp, b, rb, 'race=aged proc=B (artefacts back-dated by 1 h while A compiles)', {})
+    ctx.case(('race', 'aged'), sample=None)
+
+
 def negative_trace_controls(ctx, procs):
     """Binding self-test: corrupt a recorded trace and require REJECT."""
     import copy
@@ -436,6 +469,7 @@ def run(ctx):
     else:
         for k in range(2):
             futs.append(pool.submit(scen_random_kill, ctx, exp, k, 7.0))
+    futs.append(pool.submit(scen_aged_race, ctx, exp))
     rf = [pool.submit(scen_race, ctx, exp, nm, plan) for nm, plan in races]
     for f in futs:
         f.result()
